@@ -218,7 +218,7 @@ Ltac none_param HV :=
   match goal with Hp : ParamOk ?p _ |- _ => idtac end.
 
 (* string / bytestring node: the list node below turns into VStr values *)
-Lemma string_typed (isstr : bool) (c : content) vs0 vs sz t :
+Lemma string_typed (isstr : bool) vs0 vs sz t :
   (forall l, In (VList l) vs0 -> match sz with Some n => zlen l = n | None => True end) ->
   (forall v, In v vs0 -> exists l, v = VList l) ->
   mapM (fun v => rmap (VStr isstr) (bytes_of v)) vs0 = Ok vs ->
@@ -233,7 +233,7 @@ Qed.
 
 Lemma to_list_typed_all c : typed c.
 Proof.
-  induction c as [dt shape data| |w o c IHc|w s e c IHc|c IHc size zl|w ix c IHc|w ix c IHc|m vw c IHc
+  induction c as [dt shape data| |w o c IHc|w s e c IHc|c size zl IHc|w ix c IHc|w ix c IHc|m vw c IHc
                  |m vw lsb n c IHc|c IHc|w t ix cs IHcs|cs ks n IHcs|arr rn c IHc] using content_ind';
     intros vs HV Hl; inversion HV; subst.
   - (* Numpy *)
@@ -248,40 +248,40 @@ Proof.
   - (* ListOffset *)
     simpl in Hl. destruct (to_list c) as [vs0|] eqn:E0; [|discriminate]. simpl in Hl.
     destruct (cut vs0 o) as [ls|] eqn:Ec; [|discriminate]. simpl in Hl. inversion Hl; subst.
-    match goal with Hs : _ -> Valid None c |- _ => specialize (IHc vs0 (Hs eq_refl) eq_refl) end.
+    match goal with Hs : _ -> Valid None c |- _ => specialize (IHc vs0 (Hs eq_refl) E0) end.
     apply cut_sub in Ec. simpl. apply Forall_forall. intros v Hv. apply in_map_iff in Hv as (l & <- & Hin).
     rewrite Forall_forall in Ec. apply has_type_list; [eapply Forall_sub; eauto|exact I].
   - (* ListA *)
     simpl in Hl. destruct (to_list c) as [vs0|] eqn:E0; [|discriminate]. simpl in Hl.
     destruct (cut2 vs0 s e) as [ls|] eqn:Ec; [|discriminate]. simpl in Hl. inversion Hl; subst.
-    match goal with Hs : _ -> Valid None c |- _ => specialize (IHc vs0 (Hs eq_refl) eq_refl) end.
+    match goal with Hs : _ -> Valid None c |- _ => specialize (IHc vs0 (Hs eq_refl) E0) end.
     apply cut2_sub in Ec. simpl. apply Forall_forall. intros v Hv. apply in_map_iff in Hv as (l & <- & Hin).
     rewrite Forall_forall in Ec. apply has_type_list; [eapply Forall_sub; eauto|exact I].
   - (* Regular *)
     simpl in Hl. destruct (to_list c) as [vs0|] eqn:E0; [|discriminate]. simpl in Hl.
     destruct (chunks vs0 size zl) as [ls|] eqn:Ec; [|discriminate]. simpl in Hl. inversion Hl; subst.
-    match goal with Hs : _ -> Valid None c |- _ => specialize (IHc vs0 (Hs eq_refl) eq_refl) end.
+    match goal with Hs : _ -> Valid None c |- _ => specialize (IHc vs0 (Hs eq_refl) E0) end.
     apply chunks_spec in Ec. simpl. apply Forall_forall. intros v Hv. apply in_map_iff in Hv as (l & <- & Hin).
     rewrite Forall_forall in Ec. destruct (Ec l Hin) as [Hlen Hsub].
     apply has_type_list; [eapply Forall_sub; eauto|exact Hlen].
   - (* Indexed *)
     simpl in Hl. destruct (to_list c) as [vs0|] eqn:E0; [|discriminate]. simpl in Hl.
-    match goal with Hv : Valid None c |- _ => specialize (IHc vs0 Hv eq_refl) end.
-    simpl. eapply mapM_Forall; [exact Hl|]. intros i y _ Hy. apply get_In in Hy.
+    match goal with Hv : Valid None c |- _ => specialize (IHc vs0 Hv E0) end.
+    simpl. eapply mapM_Forall; [exact Hl|]. intros i y _ Hy. cbv beta in Hy. apply get_In in Hy.
     rewrite Forall_forall in IHc. auto.
   - (* IndexedOption *)
     simpl in Hl. destruct (to_list c) as [vs0|] eqn:E0; [|discriminate]. simpl in Hl.
-    match goal with Hv : Valid None c |- _ => specialize (IHc vs0 Hv eq_refl) end.
-    simpl. eapply mapM_Forall; [exact Hl|]. intros i y _ Hy. eapply pick_opt_typed; eauto.
+    match goal with Hv : Valid None c |- _ => specialize (IHc vs0 Hv E0) end.
+    simpl. eapply mapM_Forall; [exact Hl|]. intros i y _ Hy. cbv beta in Hy. eapply pick_opt_typed; eauto.
   - (* ByteMasked *)
     simpl in Hl. destruct (to_list c) as [vs0|] eqn:E0; [|discriminate]. simpl in Hl.
-    match goal with Hv : Valid None c |- _ => specialize (IHc vs0 Hv eq_refl) end.
-    simpl. eapply mapM_Forall; [exact Hl|]. intros [i b] y _ Hy. eapply pick_opt_typed; eauto.
+    match goal with Hv : Valid None c |- _ => specialize (IHc vs0 Hv E0) end.
+    simpl. eapply mapM_Forall; [exact Hl|]. intros [i b] y _ Hy. cbv beta in Hy. eapply pick_opt_typed; eauto.
   - (* BitMasked *)
     simpl in Hl. destruct (to_list c) as [vs0|] eqn:E0; [|discriminate]. simpl in Hl.
     destruct (n <? 0); [discriminate|].
-    match goal with Hv : Valid None c |- _ => specialize (IHc vs0 Hv eq_refl) end.
-    simpl. eapply mapM_Forall; [exact Hl|]. intros i y _ Hy.
+    match goal with Hv : Valid None c |- _ => specialize (IHc vs0 Hv E0) end.
+    simpl. eapply mapM_Forall; [exact Hl|]. intros i y _ Hy. cbv beta in Hy.
     destruct (bit_at m lsb i) as [b|]; [|discriminate]. simpl in Hy. eapply pick_opt_typed; eauto.
   - (* Unmasked *)
     simpl in Hl.
@@ -292,7 +292,7 @@ Proof.
     match type of Hl with bind ?X _ = _ => destruct X as [vss|] eqn:Ea end; [|discriminate].
     simpl in Hl. destruct (zlen ix <? zlen t); [discriminate|].
     apply all_to_list in Ea. simpl.
-    eapply mapM_Forall; [exact Hl|]. intros [tg i] y _ Hy.
+    eapply mapM_Forall; [exact Hl|]. intros [tg i] y _ Hy. cbv beta in Hy.
     destruct (get vss tg) as [col|] eqn:Eg; [|discriminate]. simpl in Hy.
     apply get_In in Eg. apply get_In in Hy.
     (* the content col comes from *)
@@ -313,7 +313,7 @@ Proof.
     assert (HF : Forall (fun c => forall col, to_list c = Ok col -> Forall (has_type (type_of_p None c)) col) cs).
     { match goal with HV' : Forall (Valid None) cs |- _ =>
         eapply Forall_impl2; [|exact IHcs|exact HV']; intros x Hx Hv col Hcol; apply (Hx col Hv Hcol) end. }
-    eapply mapM_Forall; [exact Hl|]. intros i y _ Hy. unfold row in Hy.
+    eapply mapM_Forall; [exact Hl|]. intros i y _ Hy. cbv beta in Hy. unfold row in Hy.
     destruct (mapM (fun col => get col i) vss) as [fs|] eqn:Em; [|discriminate]. simpl in Hy.
     pose proof (row_fields cs vss fs i Ea HF Em) as Hgo.
     destruct ks as [ks|].
@@ -378,20 +378,37 @@ Theorem to_list_typed_thm c vs :
 Proof. intros HV Hl. exact (to_list_typed_all c vs HV Hl). Qed.
 
 (* ---------------------------------------------------------------- depth of the leaves *)
+Section ValueInd.
+  Variable P : value -> Prop.
+  Hypothesis HNum : forall d, P (VNum d).
+  Hypothesis HBool : forall b, P (VBool b).
+  Hypothesis HStr : forall i s, P (VStr i s).
+  Hypothesis HNone : P VNone.
+  Hypothesis HList : forall l, Forall P l -> P (VList l).
+  Hypothesis HRec : forall fs, Forall (fun kv : name * value => P (snd kv)) fs -> P (VRec fs).
+  Hypothesis HTup : forall vs, Forall P vs -> P (VTup vs).
+  Fixpoint value_ind' (v : value) : P v :=
+    match v with
+    | VNum d => HNum d
+    | VBool b => HBool b
+    | VStr i s => HStr i s
+    | VNone => HNone
+    | VList l => HList l ((fix G (l : list value) : Forall P l :=
+                             match l with [] => Forall_nil P | x :: xs => Forall_cons x (value_ind' x) (G xs) end) l)
+    | VRec fs => HRec fs ((fix G (l : list (name * value)) : Forall (fun kv => P (snd kv)) l :=
+                             match l with
+                             | [] => Forall_nil _
+                             | x :: xs => Forall_cons (P := fun kv => P (snd kv)) x (value_ind' (snd x)) (G xs)
+                             end) fs)
+    | VTup vs => HTup vs ((fix G (l : list value) : Forall P l :=
+                             match l with [] => Forall_nil P | x :: xs => Forall_cons x (value_ind' x) (G xs) end) vs)
+    end.
+End ValueInd.
+
 Lemma leaf_depth_mono v : forall lo hi lo' hi',
   lo' <= lo -> hi <= hi' -> leaf_depth_in lo hi v = true -> leaf_depth_in lo' hi' v = true.
 Proof.
-  induction v as [d|b|i s| |l IH|fs IH|vs IH] using
-    (fix F (v : value) : _ :=
-       match v with
-       | VNum d => _ | VBool b => _ | VStr i s => _ | VNone => _
-       | VList l => _ ((fix G (l : list value) : Forall _ l :=
-                          match l with [] => Forall_nil _ | x :: xs => Forall_cons x (F x) (G xs) end) l)
-       | VRec fs => _ ((fix G (l : list (name * value)) : Forall (fun kv => _ (snd kv)) l :=
-                          match l with [] => Forall_nil _ | x :: xs => Forall_cons x (F (snd x)) (G xs) end) fs)
-       | VTup vs => _ ((fix G (l : list value) : Forall _ l :=
-                          match l with [] => Forall_nil _ | x :: xs => Forall_cons x (F x) (G xs) end) vs)
-       end); intros lo hi lo' hi' Hlo Hhi H; simpl in *.
+  induction v as [d|b|i s| |l IH|fs IH|vs IH] using value_ind'; intros lo hi lo' hi' Hlo Hhi H; simpl in *.
   - apply andb_true_iff in H as [H1 H2]. apply Z.leb_le in H1, H2. apply andb_true_iff. split; apply Z.leb_le; lia.
   - apply andb_true_iff in H as [H1 H2]. apply Z.leb_le in H1, H2. apply andb_true_iff. split; apply Z.leb_le; lia.
   - apply andb_true_iff in H as [H1 H2]. apply Z.leb_le in H1, H2. apply andb_true_iff. split; apply Z.leb_le; lia.
@@ -403,5 +420,160 @@ Proof.
   - apply forallb_forall. intros x Hx. rewrite forallb_forall in H. rewrite Forall_forall in IH.
     eapply (IH x Hx lo hi); [lia|lia|apply H, Hx].
 Qed.
-EOF
-timeout 600 coqc -R /verif/coq AwkV -R . AwkTypes Proofs_Typing.v 2>&1 | head -50
+
+Section TyInd.
+  Variable P : ty -> Prop.
+  Hypothesis HNum : forall dt, P (TNum dt).
+  Hypothesis HUnk : P TUnk.
+  Hypothesis HList : forall sz str t, P t -> P (TList sz str t).
+  Hypothesis HOpt : forall t, P t -> P (TOpt t).
+  Hypothesis HRec : forall ks ts, Forall P ts -> P (TRec ks ts).
+  Hypothesis HUnion : forall ts, Forall P ts -> P (TUnion ts).
+  Fixpoint ty_ind' (t : ty) : P t :=
+    match t with
+    | TNum dt => HNum dt
+    | TUnk => HUnk
+    | TList sz str t' => HList sz str t' (ty_ind' t')
+    | TOpt t' => HOpt t' (ty_ind' t')
+    | TRec ks ts => HRec ks ts ((fix G (l : list ty) : Forall P l :=
+                                   match l with [] => Forall_nil P | x :: xs => Forall_cons x (ty_ind' x) (G xs) end) ts)
+    | TUnion ts => HUnion ts ((fix G (l : list ty) : Forall P l :=
+                                 match l with [] => Forall_nil P | x :: xs => Forall_cons x (ty_ind' x) (G xs) end) ts)
+    end.
+End TyInd.
+
+Lemma minmax_step_bounds (l : list (Z * Z)) : forall a0 b0,
+  let r := fold_left (fun acc mm => ((if fst mm <? fst acc then fst mm else fst acc),
+                                     (if snd acc <? snd mm then snd mm else snd acc))) l (a0, b0) in
+  fst r <= a0 /\ b0 <= snd r /\ forall mm, In mm l -> fst r <= fst mm /\ snd mm <= snd r.
+Proof.
+  induction l as [|x l IH]; intros a0 b0; simpl.
+  - split; [lia|]. split; [lia|]. intros mm [].
+  - specialize (IH (if fst x <? a0 then fst x else a0) (if b0 <? snd x then snd x else b0)).
+    simpl in IH. destruct IH as (H1 & H2 & H3).
+    assert (Ha : (if fst x <? a0 then fst x else a0) <= a0 /\ (if fst x <? a0 then fst x else a0) <= fst x).
+    { destruct (fst x <? a0) eqn:Ea; [apply Z.ltb_lt in Ea|apply Z.ltb_ge in Ea]; lia. }
+    assert (Hb : b0 <= (if b0 <? snd x then snd x else b0) /\ snd x <= (if b0 <? snd x then snd x else b0)).
+    { destruct (b0 <? snd x) eqn:Eb; [apply Z.ltb_lt in Eb|apply Z.ltb_ge in Eb]; lia. }
+    split; [lia|]. split; [lia|]. intros mm [<-|Hin]; [lia|apply H3, Hin].
+Qed.
+
+Lemma minmax_fold_bounds l mm : In mm l -> fst (minmax_fold l) <= fst mm /\ snd mm <= snd (minmax_fold l).
+Proof.
+  intros Hin. unfold minmax_fold. destruct l as [|x l]; [contradiction|].
+  apply (minmax_step_bounds (x :: l) kMaxInt64 0), Hin.
+Qed.
+
+Definition leaf_ok (t : ty) : Prop :=
+  forall v, has_typeb t v = true -> leaf_depth_in (fst (minmax_ty t)) (snd (minmax_ty t)) v = true.
+
+Lemma go_leaf_depth ts (mmf : Z * Z) :
+  Forall leaf_ok ts ->
+  (forall t, In t ts -> fst mmf <= fst (minmax_ty t) /\ snd (minmax_ty t) <= snd mmf) ->
+  forall vs,
+    (fix go (ts : list ty) (vs : list value) {struct ts} : bool :=
+       match ts, vs with
+       | [], [] => true
+       | t0 :: ts', v0 :: vs' => has_typeb t0 v0 && go ts' vs'
+       | _, _ => false
+       end) ts vs = true ->
+    forallb (leaf_depth_in (fst mmf) (snd mmf)) vs = true.
+Proof.
+  induction 1 as [|t0 ts' Ht0 Hts IHts]; intros Hb [|v0 vs'] Hg; try discriminate; [reflexivity|].
+  apply andb_true_iff in Hg as [Hv Hg]. simpl. apply andb_true_iff. split.
+  - destruct (Hb t0 (or_introl eq_refl)) as [Hlo Hhi].
+    eapply leaf_depth_mono; [exact Hlo|exact Hhi|]. apply Ht0, Hv.
+  - apply IHts; [|exact Hg]. intros t Ht. apply Hb. right. exact Ht.
+Qed.
+
+Lemma ex_leaf_depth ts (mmf : Z * Z) v :
+  Forall leaf_ok ts ->
+  (forall t, In t ts -> fst mmf <= fst (minmax_ty t) /\ snd (minmax_ty t) <= snd mmf) ->
+  (fix ex (ts : list ty) : bool := match ts with [] => false | t0 :: ts' => has_typeb t0 v || ex ts' end) ts = true ->
+  leaf_depth_in (fst mmf) (snd mmf) v = true.
+Proof.
+  induction 1 as [|t0 ts' Ht0 Hts IHts]; intros Hb H; [discriminate|].
+  apply orb_true_iff in H as [H|H].
+  - destruct (Hb t0 (or_introl eq_refl)) as [Hlo Hhi].
+    eapply leaf_depth_mono; [exact Hlo|exact Hhi|]. apply Ht0, H.
+  - apply IHts; [|exact H]. intros t Ht. apply Hb. right. exact Ht.
+Qed.
+
+Lemma has_type_leaf_depth t : leaf_ok t.
+Proof.
+  induction t as [dt| |sz str t IH|t IH|ks ts IH|ts IH] using ty_ind'; intros v H.
+  - destruct v; simpl in H; try discriminate; reflexivity.
+  - discriminate.
+  - destruct str as [b|].
+    + destruct v; simpl in H; try discriminate. reflexivity.
+    + destruct v as [| | | |l| |]; simpl in H; try discriminate.
+      apply andb_true_iff in H as [H _]. simpl.
+      replace (fst (minmax_ty t) + 1 - 1) with (fst (minmax_ty t)) by lia.
+      replace (snd (minmax_ty t) + 1 - 1) with (snd (minmax_ty t)) by lia.
+      apply forallb_forall. intros x Hx. rewrite forallb_forall in H. apply IH, H, Hx.
+  - destruct v; simpl in H; try (apply IH; exact H). reflexivity.
+  - (* records and tuples *)
+    assert (Hb : forall t, In t ts -> fst (minmax_fold (map minmax_ty ts)) <= fst (minmax_ty t) /\
+                                      snd (minmax_ty t) <= snd (minmax_fold (map minmax_ty ts))).
+    { intros t Ht. apply minmax_fold_bounds, in_map, Ht. }
+    pose proof (go_leaf_depth ts _ IH Hb) as Hgo.
+    destruct ks as [ks|]; destruct v; simpl in H; try discriminate.
+    + apply andb_true_iff in H as [_ H]. specialize (Hgo _ H).
+      simpl. rewrite forallb_forall in Hgo. apply forallb_forall. intros kv Hkv. apply Hgo, in_map, Hkv.
+    + exact (Hgo _ H).
+  - (* union *)
+    assert (Hb : forall t, In t ts -> fst (minmax_fold (map minmax_ty ts)) <= fst (minmax_ty t) /\
+                                      snd (minmax_ty t) <= snd (minmax_fold (map minmax_ty ts))).
+    { intros t Ht. apply minmax_fold_bounds, in_map, Ht. }
+    exact (ex_leaf_depth ts _ v IH Hb H).
+Qed.
+
+Lemma numpy_ty_minmax dt dims : minmax_ty (numpy_ty dt dims) = (zlen dims + 1, zlen dims + 1).
+Proof.
+  induction dims as [|d ds IH]; simpl; [reflexivity|]. rewrite IH. simpl. unfold zlen. simpl length.
+  f_equal; lia.
+Qed.
+
+Lemma strflag_is_string p : match strflag p with Some _ => is_string_kind p = true | None => is_string_kind p = false end.
+Proof. destruct p as [[]|]; reflexivity. Qed.
+
+Lemma is_strk_string_kind p : is_strk p = is_string_kind p.
+Proof. destruct p as [[]|]; reflexivity. Qed.
+
+Lemma minmax_content_type c : forall p, Valid p c -> c_minmax_depth p c = minmax_ty (type_of_p p c).
+Proof.
+  induction c as [dt shape data| |w o c IHc|w s e c IHc|c size zl IHc|w ix c IHc|w ix c IHc|m vw c IHc
+                 |m vw lsb n c IHc|c IHc|w t ix cs IHcs|cs ks n IHcs|arr rn c IHc] using content_ind';
+    intros p HV; inversion HV; subst; simpl.
+  - destruct shape as [|n dims]; [congruence|]. simpl tl. rewrite numpy_ty_minmax.
+    unfold zlen. simpl length. f_equal; lia.
+  - reflexivity.
+  - pose proof (strflag_is_string p) as Hs. destruct (strflag p); rewrite Hs; [reflexivity|].
+    rewrite IHc; [reflexivity|]. match goal with Hv : _ -> Valid None c |- _ => apply Hv end.
+    rewrite is_strk_string_kind. exact Hs.
+  - pose proof (strflag_is_string p) as Hs. destruct (strflag p); rewrite Hs; [reflexivity|].
+    rewrite IHc; [reflexivity|]. match goal with Hv : _ -> Valid None c |- _ => apply Hv end.
+    rewrite is_strk_string_kind. exact Hs.
+  - pose proof (strflag_is_string p) as Hs. destruct (strflag p); rewrite Hs; [reflexivity|].
+    rewrite IHc; [reflexivity|]. match goal with Hv : _ -> Valid None c |- _ => apply Hv end.
+    rewrite is_strk_string_kind. exact Hs.
+  - auto.
+  - auto.
+  - auto.
+  - auto.
+  - auto.
+  - rewrite map_map. f_equal. apply map_ext_in. intros x Hx. rewrite Forall_forall in IHcs.
+    match goal with HF : Forall (Valid None) cs |- _ => rewrite Forall_forall in HF; apply IHcs; auto end.
+  - rewrite map_map. f_equal. apply map_ext_in. intros x Hx. rewrite Forall_forall in IHcs.
+    match goal with HF : Forall (Valid None) cs |- _ => rewrite Forall_forall in HF; apply IHcs; auto end.
+  - apply IHc. assumption.
+Qed.
+
+Theorem minmax_is_value_depth_thm c vs :
+  Valid None c -> to_list c = Ok vs ->
+  Forall (fun v => leaf_depth_in (fst (c_minmax_depth None c)) (snd (c_minmax_depth None c)) v = true) vs.
+Proof.
+  intros HV Hl. rewrite (minmax_content_type c None HV).
+  eapply Forall_impl; [|exact (to_list_typed_all c vs HV Hl)].
+  intros v Hv. apply has_type_leaf_depth, Hv.
+Qed.
